@@ -270,8 +270,15 @@ def check(repo, run, tier):
     g.done()
 
 
+def _two(r):
+    ov = in_func(r, 'ComposedNode.ayns.on_merge_impl', "        def on_merge_impl(self, path, other):", "        def on_merge_impl(self, path, other, _removed=set()):")
+    r2 = r.with_overrides(ov)
+    return in_func(r2, 'ComposedNode.ayns.on_merge_impl', "                removed = set()\n", "                removed = _removed\n")
+
+
 def mutants(repo):
     return [
+        Mutant('removed-paths-in-a-default-argument', lambda r: _two(r), ['C08.R1']),
         Mutant('non-node-operand-as-second-node', lambda r: in_func(r, 'node.decorator_factory', "if not isinstance(other, ConfigNode):", "if isinstance(other, ConfigNode):"), ['C08.R7']),
         Mutant('api-entry-touches-missing-context', lambda r: in_func(r, 'errors.api_entry', "if orig_exp is not None:", "if orig_exp is None:"), ['C08.R7']),
         Mutant('removed-root-not-excepted', lambda r: in_func(r, 'ComposedNode.ayns.on_merge_impl', "                    removed.add(path)\n", ""), ['C08.R1']),
